@@ -4,7 +4,6 @@ import (
 	"context"
 	"encoding/json"
 	"fmt"
-	"os"
 	"sort"
 	"strings"
 	"sync"
@@ -71,11 +70,16 @@ import (
 // evaluation order inside the engine (see C01); for such requests an
 // error-versus-answer difference between two runs of the same engine is
 // tolerated and counted (label unknown-tolerated); two definite answers must
-// still agree.
+// still agree. Observed about once per 16 000 cases: a weight-2 fast path
+// reads every tuple of the user on the relation, meets an unrelated tuple with
+// an unevaluable condition and, depending on which side of its join finishes
+// first, fails or answers false; rapid reports such a case as flaky.
 //
 // Not expressible in AuthZEN, hence outside the case space: userset subjects
-// (ids must not contain '#'; the generator replaces them by their object and
-// counts them) and contextual tuples.
+// (request validation forbids '#' in ids; the generator replaces them by their
+// object and counts them) and contextual tuples. A typed wildcard subject is
+// expressible as id "*" (the documented type ":" id concatenation; the search
+// results use the same form) and is kept (label subject:wildcard).
 //
 // NT: the batch's native decisions are mixed (some allowed, some denied) and
 // some search returns a non-empty strict subset of its candidates.
@@ -620,7 +624,9 @@ func (k *checker) unknownUnder(ctx map[string]any) bool {
 // the object mapper) keeps only the first tuple per object id BEFORE the
 // invalid-tuple filter and the condition filter run, so of two tuples on the
 // same object and relation - one for the request user, one for its typed
-// wildcard - the second is lost even when the first is then filtered out.
+// wildcard - the second is lost even when the first is then filtered out. The
+// lost tuple may be the one that grants (reference True, engine false) or the
+// one whose condition cannot be evaluated (reference Unknown, engine false).
 const SigFirstTuplePerObject = "C01/sorted-read-keeps-first-tuple-per-object-before-filtering"
 
 // shadowPair recognises that signature structurally: some (object, relation)
@@ -684,7 +690,7 @@ func (k *checker) nativeCheck(r m.Request) (res nativeResult, tooComplex bool, f
 	exp, unk := semkit.RefCheck(k.c.World, r)
 	if ok, why := semkit.CompareCheck(exp, unk, res.allowed, res.err); !ok {
 		sig := semkit.ClassifyCheck(k.c.World, r, exp, res.allowed, res.err)
-		if sig == "" && res.err == nil && !res.allowed && exp == refsem.True && shadowPair(k.c.World, r) {
+		if sig == "" && res.err == nil && !res.allowed && exp != refsem.False && shadowPair(k.c.World, r) {
 			sig = SigFirstTuplePerObject
 		}
 		if fw.IsKnown(sig) {
@@ -702,7 +708,7 @@ func (k *checker) nativeCheck(r m.Request) (res nativeResult, tooComplex bool, f
 func (k *checker) agree(where string, n nativeResult, azDecision, azErr bool) *fw.Failure {
 	switch {
 	case (n.err != nil) != azErr:
-		if n.unknown && os.Getenv("P32_STRICT_UNKNOWN") == "" {
+		if n.unknown {
 			k.class("unknown-tolerated")
 			k.env.Rec.Add("error_vs_answer_under_unevaluable_condition", 1)
 			return nil
